@@ -32,6 +32,13 @@ REQUIRED_CLASSES = {"straddles-boundary": 100, "weight-change": 100, "ramp-up": 
 TOL = 1e-9
 
 
+KNOWN_RUNNER_PROGRESS = "final-progress/runner-reports-own-progress"
+
+
+def _runner_reports_progress(case):
+    return case["mode"] == "iterations" and case.get("op_type") == "sim-op-completing" and case.get("runner_completes_after") is not None
+
+
 def strategy(tier, known):
     return gen_tasks.task_spec(focus="control")
 
@@ -113,7 +120,10 @@ def run_case(case, obs):
                 flag = 0 if k < w_it else 1
                 obs.check(h["sample_type"] == flag, "iteration-warmup-flag", f"{tag}: request {k} flagged {h['sample_type']}, want {flag} (warm-up {w_it})")
             if n:
-                obs.check(smp[-1].percent_completed == 1.0, "final-progress", f"{tag}: final progress {smp[-1].percent_completed}")
+                # known finding: a runner that reports its own progress (wait-for-transform, custom runners) overrides the schedule's
+                # progress, so an iteration-based task with such a runner does not end at 1
+                sig = KNOWN_RUNNER_PROGRESS if _runner_reports_progress(case) else "final-progress"
+                obs.check(smp[-1].percent_completed == 1.0, sig, f"{tag}: final progress {smp[-1].percent_completed}")
         elif mode == "default":
             obs.check(n == 1, "default-one-iteration", f"{tag}: executed {n} requests for a task without any loop spec")
         elif mode == "finite-source":
@@ -208,6 +218,8 @@ def run_case(case, obs):
             if h["s"] > 0 and h["pc"] > start_pc + h["s"] + TOL:
                 behind = True
     obs.cls(mode if mode != "time" else "time-based")
+    if mode == "iterations" and case.get("op_type") == "sim-op-completing":
+        obs.cls("iterations-with-completion-capable-runner")
     if straddle:
         obs.cls("straddles-boundary")
     if weight_change:
@@ -217,3 +229,9 @@ def run_case(case, obs):
     if behind:
         obs.cls("behind-schedule")
     obs.mark_nontrivial(straddle or weight_change or (mode == "iterations" and w_it > 0 and c >= 2))
+
+
+PROBES = {
+    # an iteration-based task (1 + 3 iterations) whose runner reports its own progress (4 of 11): the last sample says 0.36, not 1
+    KNOWN_RUNNER_PROGRESS: {'clients': 1, 'stride': 1, 'seed': 0, 'perf_offset': 0.0, 'on_error': 'continue', 'mode': 'iterations', 'warmup_iterations': 1, 'iterations': 3, 'op_type': 'sim-op-completing', 'runner_completes_after': 11, 'schedule': None, 'requests': [{'pre': 0, 'wire': [[0, 0.125]], 'post': 0, 'outcome': 'ok', 'shape': 'dict', 'weight': 1, 'unit': 'ops'}]},
+}
